@@ -224,14 +224,22 @@ def make_elem(spec):
     if k == 'uc': return core.ucomplex(complex(spec[1], spec[2]), (spec[3], spec[4]), spec[5] if spec[5] is not None else math.inf)
     if k == 's': return str(spec[1])
     if k == 'b': return bool(spec[1])
-    if k == 'np': return getattr(np, spec[1])(complex(spec[2], spec[3]) if len(spec) > 3 else spec[2])
+    if k == 'np': return getattr(np, spec[1])(complex(spec[2], spec[3]) if len(spec) > 3 else float(spec[2]) if isinstance(spec[2], str) else spec[2])
     raise ValueError(spec)
 
-def make_array(kind, shape, elems, label):
+def promote_scalar(s):
+    return np.full((1,), s, dtype=object)[0]
+
+def make_array(kind, shape, elems, label, dtype=None):
+    """dtype=None: an object array holding exactly the given elements; otherwise a NUMERIC ndarray of that dtype (its
+    elements, as .flat yields them, are NumPy scalars) -- la.uarray keeps the dtype of an ndarray it is given"""
     core, reporting, lib, la, ua = gtc_mods()
     n = int(np.prod(shape)) if len(shape) else 1
-    flat = np.empty(n, dtype=object)
-    for i, e in enumerate(elems): flat[i] = e
+    if dtype is None:
+        flat = np.empty(n, dtype=object)
+        for i, e in enumerate(elems): flat[i] = e
+    else:
+        flat = np.array(list(elems), dtype=dtype) if n else np.empty(0, dtype=dtype)
     nd = flat.reshape(tuple(shape))
     if kind == 'KN':
         return nd
@@ -301,6 +309,8 @@ class Impl(object):
         self.heap = []; self.reg = Registry(); self.rows = {}; self.expected = []; self.tainted = set()
         self.notes = {'broadcast': 0, 'stale_read': 0, 'read_after_broadcast': 0, 'exn': 0, 'steps': 0, 'cells': 0,
                       'noncontiguous_operand': 0, 'raising_broadcast': 0, 'read_after_raise': 0}
+        self.bin_scalar = {}              # step -> ids of the promoted scalar operands of a binary ufunc
+        self.numeric = set()              # heap indices of arrays with a numeric (non-object) dtype
         self.zip_scalar = {}              # step -> id of the converted scalar operand of a zip op
         self.pure = set()                 # heap indices of plain ndarrays holding only plain numbers of mixed kinds
         self.ranges = set()               # ... whose elements are 0..n-1 (can be passed as a range object)
@@ -325,6 +335,11 @@ class Impl(object):
     def op_cells(self, o):
         if o[0] == 'A': return cells_of(self.heap[o[1]])
         return [self.scalars[o[1]]]
+
+    def promoted(self, o):
+        """the element a scalar operand of a binary ufunc becomes: np.full(shape, scalar, dtype=object) stores a NumPy scalar as
+        the corresponding Python number (np.float64(2.5) -> 2.5); Python numbers and uncertain numbers are stored as they are"""
+        return promote_scalar(self.scalars[o[1]])
 
     def record_pairs(self, code, A, B, sa, sb, extra_diag=False):
         """scalar-table rows for every pairing the model may ask for: NumPy-broadcast pairs,
@@ -384,12 +399,16 @@ class Impl(object):
             elems = [make_elem(s) for s in op['elems']]
             lbl = op.get('label')
             if lbl is not None: self.reg.id(lbl)
-            self.observe(('ok', make_array(op['kind'], op['shape'], elems, lbl)))
+            self.observe(('ok', make_array(op['kind'], op['shape'], elems, lbl, op.get('dtype'))))
+            if op.get('dtype'): self.numeric.add(len(self.heap) - 1)
             if op.get('pure'): self.pure.add(len(self.heap) - 1)
             if op.get('range'): self.ranges.add(len(self.heap) - 1)
         elif k == 'bin':
             code = op['f']; x = self.operand(op['x']); y = self.operand(op['y'])
             A = self.op_cells(op['x']); B = self.op_cells(op['y'])
+            if op['x'][0] == 'S': A = [self.promoted(op['x'])]
+            if op['y'][0] == 'S': B = [self.promoted(op['y'])]
+            self.bin_scalar[len(self.expected)] = [self.reg.id(A[0]) if op['x'][0] == 'S' else None, self.reg.id(B[0]) if op['y'][0] == 'S' else None]
             sa = np.shape(x) if op['x'][0] == 'A' else (); sb = np.shape(y) if op['y'][0] == 'A' else ()
             self.record_pairs(code, A, B, sa, sb)
             if tuple(sa) != tuple(sb) and op['x'][0] == 'A' and op['y'][0] == 'A':
@@ -499,7 +518,9 @@ class Impl(object):
             self.shape_at[len(self.expected)] = [int(d) for d in np.shape(a)]
             n0 = len(self.heap)
             self.observe(guarded(apply_view, a, op['how']))
-            if len(self.heap) > n0: self.views.add(n0)
+            if len(self.heap) > n0:
+                self.views.add(n0)
+                if self.heap[n0].dtype != object and self.heap[n0].dtype != bool: self.numeric.add(n0)
         else:
             raise ValueError(k)
 
@@ -546,7 +567,7 @@ def check_result_elements(impl, step, pre, labels, out):
             if not (x.real.is_elementary or x.real.is_intermediate) and y.label != lbl and str(y.label) != str(lbl):
                 fail(k, 'label %r, expected %r' % (y.label, lbl))
         elif isinstance(x, (numbers.Number, np.generic)) or x is None:
-            if y is not x and not (isinstance(x, numbers.Number) and y == x and type(y) is type(x)): fail(k, 'a pure number was not returned unchanged')
+            if y is not x and fingerprint(y) != fingerprint(x): fail(k, 'a pure number was not returned unchanged')
     return bad
 
 # ----------------------------------------------------------------------------- Coq printing
@@ -566,7 +587,9 @@ def coq_op(op, impl, step=None):
         return '(ONew %s %s %s %s)' % (op['kind'], cnat_list(op['shape']), czl(elems), cz(reg.id(lbl) if lbl is not None else 0))
     if k == 'bin':
         bk = 'BCmp' if op['f'] in BCMP else 'BGen'      # np.arctan2 is an ordinary two-argument wrapper since the fix
-        return '(OBin %s %s %s %s)' % (bk, cz(op['f']), coq_operand(op['x'], reg, impl.scalars), coq_operand(op['y'], reg, impl.scalars))
+        sx, sy = impl.bin_scalar[step]
+        return '(OBin %s %s %s %s)' % (bk, cz(op['f']), '(OS %s)' % cz(sx) if op['x'][0] == 'S' else coq_operand(op['x'], reg, impl.scalars),
+                                       '(OS %s)' % cz(sy) if op['y'][0] == 'S' else coq_operand(op['y'], reg, impl.scalars))
     if k == 'un': return '(OUn %s %d)' % (cz(op['f']), op['i'])
     if k == 'unb': return '(OUnB %s %d)' % (cz(op['f']), op['i'])
     if k == 'zip':
@@ -679,6 +702,10 @@ class Gen(object):
 
     def scalar(self):
         rng = self.rng; self.leaf += 1
+        if rng.random() < 0.3:          # every plain scalar kind, in both modes
+            return rng.choice([['b', rng.random() < 0.5], ['i', rng.randint(-3, 3)], ['f', round(rng.uniform(-3, 3), 2)], ['f', 0.5], ['f', 2.5],
+                               ['c', float(rng.randint(0, 2)), 0.5 * rng.randint(-2, 2)], ['np', 'float64', round(rng.uniform(0.1, 2), 2)],
+                               ['np', 'int64', rng.randint(1, 4)], ['np', 'complex128', 1.0, -0.5]])
         if self.mode == 'sym': return ['f', round(rng.uniform(-3, 3), 2)] if rng.random() < 0.7 else ['i', rng.randint(-3, 3)]
         r = rng.random()
         if r < 0.4: return ['ur', round(rng.uniform(0.2, 0.9), 3) + 0.001 * self.leaf, round(rng.uniform(0.01, 0.2), 3), None]
@@ -700,7 +727,17 @@ class Gen(object):
             elems = [self.elem() for _ in range(n)]
             if n and rng.random() < 0.3: elems[rng.randrange(n)] = self.poison()
             op = {'op': 'new', 'kind': kind, 'shape': s, 'elems': elems, 'label': rng.choice([None, 'lab%d' % j])}
-            if kind == 'KN' and n and len(s) and rng.random() < 0.6:
+            if rng.random() < 0.25:
+                # built from a NUMERIC ndarray: the (u)array keeps dtype int64 / float64 / float32 / complex128 / bool
+                dt = rng.choice(['int64', 'int64', 'float64', 'float64', 'float32', 'complex128', 'bool'])
+                def val():
+                    if dt == 'int64': return ['np', dt, rng.randint(-3, 4)]
+                    if dt == 'bool': return ['np', 'bool_', rng.random() < 0.5]
+                    if dt == 'complex128': return ['np', dt, float(rng.randint(-2, 2)), 0.5 * rng.randint(-2, 2)]
+                    if rng.random() < 0.1: return ['np', dt, rng.choice(['nan', 'inf', 0.0])]
+                    return ['np', dt, 0.25 * rng.randint(-8, 12)]
+                op['elems'] = [val() for _ in range(n)]; op['dtype'] = dt
+            elif kind == 'KN' and n and len(s) and rng.random() < 0.6:
                 # a plain sequence of pure numbers (passed to the ufuncs as nested list / tuple / range)
                 if len(s) == 1 and rng.random() < 0.15:
                     op['elems'] = [['i', v] for v in range(n)]; op['range'] = True
@@ -725,6 +762,8 @@ def extend_program(rng, prog, impl_factory, nops, profile='general'):
             # dispatched a broadcasting ufunc (or hold a remembered broadcast shape), then the first (shared) operands
             raised = [i for i in kus if i in impl.raised]
             if raised and rng.random() < 0.4: return rng.choice(raised)
+            numeric = [i for i in kus if i in impl.numeric]
+            if numeric and rng.random() < 0.35: return rng.choice(numeric)
             views = [i for i in kus if i in impl.views]
             if views and rng.random() < 0.45: return rng.choice(views)
             stale = [i for i in kus if bstate_of(heap[i]) != 'BNone' or i in impl.dispatched_bcast]
@@ -735,6 +774,8 @@ def extend_program(rng, prog, impl_factory, nops, profile='general'):
             if rng.random() < 0.5: return ['S', rng.randrange(len(prog['scalars']))]
             pure = [j for j in impl.pure if j < len(heap)]
             if pure and rng.random() < 0.5: return ['A', rng.choice(pure)]
+            numeric = [j for j in impl.numeric if j < len(heap)]
+            if numeric and rng.random() < 0.5: return ['A', rng.choice(numeric)]
             for _ in range(8):
                 j = rng.randrange(len(heap))
                 if j not in impl.tainted: return ['A', j]
@@ -793,6 +834,15 @@ def extend_program(rng, prog, impl_factory, nops, profile='general'):
             if x[0] == 'S' and y[0] == 'S': y = ['A', pick_ku()]
             form = rng.choice(['ufunc', 'ufunc', 'operator', 'list'])
             if any(o[0] == 'A' and o[1] in impl.pure for o in (x, y)): form = rng.choice(['list', 'list', 'tuple', 'range', 'ufunc'])
+            if form == 'operator':
+                # Python operators do not always reach np.<ufunc>(x, y): a NumPy scalar on the left applies its own reflection rules
+                # (np.complex128(..) <= a becomes a >= ..), and ndarray.__pow__ of a numeric-dtype array turns ** 0.5 / 2 / -1 into
+                # np.sqrt / np.square / np.reciprocal (same values, other scalar functions): the ufunc is called directly there
+                if x[0] == 'S' and isinstance(impl.scalars[x[1]], np.generic): form = 'ufunc'
+                # Python tries the reflected comparison of the uarray first when the left operand is a plain ndarray (subclass
+                # rule) or a scalar: `nd < a` runs np.greater(a, nd), another ufunc with swapped operands
+                if code in BCMP and not (x[0] == 'A' and kind_of(heap[x[1]]) == 'KU'): form = 'ufunc'
+                if code == 54 and x[0] == 'A' and heap[x[1]].dtype != object: form = 'ufunc'      # (views of numeric arrays included)
             op = {'op': 'bin', 'f': code, 'x': x, 'y': y, 'form': form}
         elif r < 0.50:
             x, y = pick_any(), pick_any()
@@ -863,17 +913,56 @@ def gen_and_run(rng, mode, ctx=16, profile='general'):
 NOTE_KEYS = ('broadcast', 'stale_read', 'read_after_broadcast', 'exn', 'steps', 'cells', 'noncontiguous_operand',
              'raising_broadcast', 'read_after_raise')
 
+def directed_programs():
+    """a small fixed stream run in every general correspondence: every comparison, maximum / minimum and the isnan / isinf /
+    isfinite tests on operands that hold NaN and +-inf (object and float64 dtype, array-array and scalar-array, both orders) --
+    the special branches that random elements reach only by luck"""
+    progs = []
+    for code in list(BCMP) + [55, 56]:
+        ops = [{'op': 'new', 'kind': 'KU', 'shape': [4], 'elems': [['f', 'nan'], ['f', 1.0], ['ur', 0.5, 0.1, None], ['f', 'inf']], 'label': None},
+               {'op': 'new', 'kind': 'KU', 'shape': [4], 'elems': [['f', 1.0], ['f', 'nan'], ['f', 'nan'], ['f', '-inf']], 'label': None},
+               {'op': 'new', 'kind': 'KU', 'shape': [4], 'elems': [['np', 'float64', 'nan'], ['np', 'float64', 2.0], ['np', 'float64', 'inf'], ['np', 'float64', 0.5]],
+                'label': None, 'dtype': 'float64'}]
+        for x, y in ((['A', 0], ['A', 1]), (['A', 1], ['A', 0]), (['A', 0], ['S', 0]), (['S', 0], ['A', 0]), (['A', 2], ['S', 1]),
+                     (['S', 1], ['A', 2]), (['A', 2], ['A', 0]), (['A', 0], ['A', 0])):
+            ops.append({'op': 'bin', 'f': code, 'x': x, 'y': y, 'form': 'ufunc'})
+        for c in UNB:
+            ops.append({'op': 'unb', 'f': c, 'i': 0}); ops.append({'op': 'unb', 'f': c, 'i': 2})
+        progs.append({'mode': 'real', 'scalars': [['f', 'nan'], ['f', 1.0]], 'ops': ops})
+    # sequences of plain numbers of mixed kinds as list / tuple operands, both orders, with symbolic and with real elements
+    for mode, elems in (('sym', [['L', 1], ['L', 2], ['L', 3]]), ('real', [['ur', 0.5, 0.1, None], ['ur', 1.5, 0.2, 3.0], ['f', 2.0]])):
+        ops = [{'op': 'new', 'kind': 'KU', 'shape': [3], 'elems': elems, 'label': None},
+               {'op': 'new', 'kind': 'KN', 'shape': [3], 'elems': [['b', True], ['i', 2], ['f', 2.5]], 'label': None, 'pure': True},
+               {'op': 'new', 'kind': 'KN', 'shape': [3], 'elems': [['i', 2 ** 70 + 1], ['f', 1.0], ['c', 0.0, 1.0]], 'label': None, 'pure': True},
+               {'op': 'new', 'kind': 'KN', 'shape': [1, 3], 'elems': [['np', 'float32', 0.5], ['i', 3], ['b', False]], 'label': None, 'pure': True}]
+        for code in (50, 51, 52, 53, 62, 70):
+            for j in (1, 2, 3):
+                for form in ('list', 'tuple'):
+                    ops.append({'op': 'bin', 'f': code, 'x': ['A', 0], 'y': ['A', j], 'form': form})
+                    ops.append({'op': 'bin', 'f': code, 'x': ['A', j], 'y': ['A', 0], 'form': form})
+        progs.append({'mode': mode, 'scalars': [['f', 1.0], ['f', 2.0]], 'ops': ops})
+    return progs
+
 def array_correspondence(rng, n, name, profile='general', p_sym=0.5, extra_terms=(), extra_meta=(), per_file=40):
     """n random array histories of the given profile run on the implementation and through the Coq model (coqc,
     vm_compute); returns the usual correspondence dict.  extra_terms are further closed Gallina terms of type Z."""
     progs = []; terms = []; dist = {'mode': {}, 'ops': {}, 'rank': {}, 'outcome': {}, 'result_label_forms': {}}
     notes = {k: 0 for k in NOTE_KEYS}; ambiguous = 0; distinct = set(); mism = []; res_checked = 0
-    while len(progs) < n:
-        mode = 'sym' if rng.random() < p_sym else 'real'
-        r = gen_and_run(rng, mode, profile=profile)
-        if r is None:
-            ambiguous += 1; continue
-        prog, impl = r
+    directed = directed_programs() if profile == 'general' else []
+    dist['directed_programs'] = len(directed)
+    while len(progs) < n + len(directed):
+        if directed:
+            prog = directed.pop(0); mode = prog['mode']
+            try:
+                impl = start(prog)
+            except Ambiguous:
+                ambiguous += 1; continue
+        else:
+            mode = 'sym' if rng.random() < p_sym else 'real'
+            r = gen_and_run(rng, mode, profile=profile)
+            if r is None:
+                ambiguous += 1; continue
+            prog, impl = r
         progs.append(prog); terms.append(coq_case(prog, impl))
         dist['mode'][mode] = dist['mode'].get(mode, 0) + 1
         nontrivial_result = False
